@@ -15,8 +15,11 @@ import (
 	"time"
 
 	spec "go.miragespace.co/specter/spec/chord"
+	"go.miragespace.co/specter/spec/protocol"
 	"specterverif/hcommon"
 	"specterverif/simnet"
+
+	"github.com/twitchtv/twirp"
 	"specterverif/simrt"
 )
 
@@ -35,6 +38,10 @@ type OpRec struct {
 	Outs   []string
 	Final  bool
 	Entry  string
+	TTL    time.Duration
+	TokIn  uint64
+	TokOut uint64
+	T0, T1 time.Duration // simulated time at invoke / return
 }
 
 type LookupRec struct {
@@ -61,6 +68,10 @@ type Exec struct {
 	rpcErrs []string
 	trigWG  *sync.WaitGroup
 	quietPhase bool
+	adm     map[string][]*admission // per node address: admitted membership changes
+	acked   map[string]string // C07: acknowledged state right before the faulted change
+	tokens  map[string]uint64 // client/key -> last token held
+	stale   map[string][]uint64
 	trigActive int
 	root    string // root-cause class shared by every consequence seen in this run
 }
@@ -159,8 +170,12 @@ func Run(t *testing.T, prop string, seed uint64, tier string, replay *hcommon.Re
 	hcommon.Fill(&res, out)
 	if len(p.Clients) > 0 && ex.c != nil && res.Abort == "" {
 		// pure checks over the recorded history, outside the bubble
-		ex.checkAcked(nil)
-		ex.checkLinearizable()
+		if p.Prop == "C19" {
+			ex.checkLeases()
+		} else if p.Prop != "C07" && p.Prop != "C10" {
+			ex.checkAcked(nil)
+			ex.checkLinearizable()
+		}
 	}
 	res.Probes = out.Probes
 	if ex.c != nil {
@@ -173,6 +188,13 @@ func Run(t *testing.T, prop string, seed uint64, tier string, replay *hcommon.Re
 	}
 	sort.Strings(res.StateHashes)
 	ex.classifyAbort(out)
+	if p.Cell != "" {
+		if res.Extra == nil {
+			res.Extra = map[string]any{}
+		}
+		res.Extra["cell"] = p.Cell
+		res.Extra["cell_fault_fired"] = out.Probes["cell-fault-fired"] > 0
+	}
 	res.Nontrivial = ex.nontrivial()
 	return res
 }
@@ -186,6 +208,16 @@ func (ex *Exec) nontrivial() bool {
 		return pr["membership-overlap-attempt"] > 0 || pr["transfer-with-keys"] > 0
 	case "C09":
 		return pr["lookup-on-joining-node"] > 0
+	case "C07":
+		return pr["cell-fault-fired"] > 0
+	case "C08":
+		return pr["crash"] > 0
+	case "C10":
+		return pr["listing-checked"] > 0
+	case "C14":
+		return pr["rpc-error-observed"] > 0
+	case "C19":
+		return pr["lease-granted"] > 1
 	default:
 		return len(ex.c.All) > 1
 	}
@@ -235,6 +267,8 @@ func (ex *Exec) main() {
 	planned := len(p.Nodes)
 	_ = planned
 	c.OnReply = func(call simnet.Call) {
+		ex.observeMembership(call)
+		ex.observeError(call)
 		if ex.quietPhase {
 			return
 		}
@@ -302,6 +336,13 @@ func (ex *Exec) slotTask(i int) {
 	c := ex.c
 	for _, op := range ex.p.Nodes[i].Ops {
 		simrt.Sleep(op.Gap, "h:slot-gap")
+		if op.Fault != nil {
+			c.Net.AddTargeted(op.Fault)
+			simrt.Event("armed fault %s nth=%d mode=%s", op.Fault.Method, op.Fault.Nth, op.Fault.Mode)
+		}
+		if op.Cell {
+			ex.acked = ex.ackedSnapshot()
+		}
 		switch op.Kind {
 		case "create":
 			h := c.Start(i)
@@ -388,6 +429,7 @@ func (ex *Exec) doOp(entry *NodeH, client int, op COp, opIdx int, final bool) *O
 	rec := &OpRec{Client: client, Kind: op.Kind, Key: key, Final: final, Entry: entry.Name}
 	child := fmt.Sprintf("c%d", op.Arg)
 	rec.Call = simrt.Stamp()
+	rec.T0 = simrt.Elapsed()
 	var err error
 	switch op.Kind {
 	case "put":
@@ -417,7 +459,28 @@ func (ex *Exec) doOp(entry *NodeH, client int, op COp, opIdx int, final bool) *O
 		var ok bool
 		ok, err = v.PrefixContains(ctx, []byte(key), []byte(child))
 		rec.Out = fmt.Sprint(ok)
+	case "acquire":
+		rec.TTL = op.TTL
+		rec.TokOut, err = v.Acquire(ctx, []byte(key), op.TTL)
+		if err == nil {
+			ex.setToken(client, key, rec.TokOut)
+			simrt.Probe("lease-granted")
+		}
+	case "renew", "renew-stale":
+		rec.TTL = op.TTL
+		rec.TokIn = ex.token(client, key, op.Kind == "renew-stale")
+		rec.TokOut, err = v.Renew(ctx, []byte(key), op.TTL, rec.TokIn)
+		if err == nil && op.Kind == "renew" {
+			ex.setToken(client, key, rec.TokOut)
+		}
+	case "release", "release-stale":
+		rec.TokIn = ex.token(client, key, op.Kind == "release-stale")
+		err = v.Release(ctx, []byte(key), rec.TokIn)
+		if err == nil && op.Kind == "release" {
+			ex.setToken(client, key, 0)
+		}
 	}
+	rec.T1 = simrt.Elapsed()
 	rec.Ret = simrt.Stamp()
 	rec.Class = classify(err)
 	if err != nil {
@@ -638,4 +701,192 @@ func (ex *Exec) leave(h *NodeH, why string) {
 	}
 	simrt.Event("leave %s id=%d -> state %s", h.Name, h.ID, h.Node.VerifState())
 	ex.noteState()
+}
+
+// admission is one admitted membership change of a node: RequestToJoin handled
+// by the node itself, or RequestToLeave. [start, reply] are the logical stamps
+// of the handler's start and end: the lock was taken somewhere in between.
+type admission struct {
+	kind         string // join | leave
+	peer         uint64 // joiner / leaver id
+	start, reply int64
+	released     bool
+}
+
+// observeMembership is the RPC-level monitor for C06. A change certainly holds
+// the node from the reply that admitted it until the handler of its release
+// (FinishJoin/FinishLeave with release=true from the same peer) starts. If the
+// whole handler of another admitted change lies inside that interval, the node
+// processed two membership changes at once.
+func (ex *Exec) observeMembership(call simnet.Call) {
+	if ex.adm == nil {
+		ex.adm = map[string][]*admission{}
+	}
+	now := simrt.Stamp()
+	switch call.Method {
+	case "RequestToJoin":
+		if call.Status != 200 {
+			if call.Status == 412 {
+				simrt.Probe("membership-refused-retryable")
+			}
+			return
+		}
+		req, resp := &protocol.RequestToJoinRequest{}, &protocol.RequestToJoinResponse{}
+		if req.UnmarshalVT(call.ReqBody) != nil || resp.UnmarshalVT(call.Body) != nil || len(resp.GetSuccessors()) == 0 {
+			return
+		}
+		// the node that handled the join itself is the head of the returned list;
+		// nodes that only forwarded the request return the same body
+		if resp.GetSuccessors()[0].GetAddress() != call.To {
+			return
+		}
+		ex.adm[call.To] = append(ex.adm[call.To], &admission{kind: "join", peer: req.GetJoiner().GetId(), start: call.Start, reply: now})
+	case "RequestToLeave":
+		if call.Status != 200 {
+			if call.Status == 412 {
+				simrt.Probe("membership-refused-retryable")
+			}
+			return
+		}
+		req := &protocol.RequestToLeaveRequest{}
+		if req.UnmarshalVT(call.ReqBody) != nil {
+			return
+		}
+		ex.adm[call.To] = append(ex.adm[call.To], &admission{kind: "leave", peer: req.GetLeaver().GetId(), start: call.Start, reply: now})
+	case "FinishJoin", "FinishLeave":
+		req := &protocol.MembershipConclusionRequest{}
+		if req.UnmarshalVT(call.ReqBody) != nil || !req.GetRelease() || !ex.faultFree() {
+			return
+		}
+		caller := ex.c.ByName(call.From)
+		if caller == nil {
+			return
+		}
+		var mine *admission
+		for _, a := range ex.adm[call.To] {
+			if a.peer == caller.ID && !a.released {
+				mine = a
+			}
+		}
+		if mine == nil {
+			if call.Status == 200 {
+				ex.res.Violate("C06", "release-without-admission", "%s(release) from %s (id %d) took effect on node %s although no membership change of that node had been admitted there", call.Method, call.From, caller.ID, call.To)
+			}
+			return
+		}
+		mine.released = true
+		for _, b := range ex.adm[call.To] {
+			if b != mine && b.start > mine.reply && b.reply < call.Start {
+				simrt.Probe("membership-overlap-admitted")
+				nh := ex.c.ByName(call.To)
+				ex.res.Violate("C06", "second-change-admitted", "node %s admitted the %s of node %d (handler stamps [%d,%d]) while the %s of node %d held it (admitted at stamp %d, release handler started at %d); state history of %s: %v",
+					call.To, b.kind, b.peer, b.start, b.reply, mine.kind, mine.peer, mine.reply, call.Start, call.To, nh.Node.VerifHistory())
+			}
+		}
+	}
+}
+
+// faultFree: the RPC-level lock discipline is only asserted when no message
+// fault can make a release go missing.
+func (ex *Exec) faultFree() bool {
+	n := ex.p.Net
+	return n.DropReq == 0 && n.DropResp == 0 && n.Reset == 0 && len(ex.p.Faults) == 0 && !ex.hasCrash()
+}
+
+func (ex *Exec) hasCrash() bool {
+	for _, n := range ex.p.Nodes {
+		for _, o := range n.Ops {
+			if o.Kind == "crash" {
+				return true
+			}
+		}
+	}
+	return false
+}
+
+func (ex *Exec) setToken(client int, key string, tok uint64) {
+	ex.mu.Lock()
+	defer ex.mu.Unlock()
+	if ex.tokens == nil {
+		ex.tokens, ex.stale = map[string]uint64{}, map[string][]uint64{}
+	}
+	k := fmt.Sprintf("%d/%s", client, key)
+	if old := ex.tokens[k]; old != 0 {
+		ex.stale[k] = append(ex.stale[k], old)
+	}
+	ex.tokens[k] = tok
+}
+
+// token returns the client's current token for the lease, or (stale) one it
+// held earlier / a forged one.
+func (ex *Exec) token(client int, key string, stale bool) uint64 {
+	ex.mu.Lock()
+	defer ex.mu.Unlock()
+	k := fmt.Sprintf("%d/%s", client, key)
+	if !stale {
+		return ex.tokens[k]
+	}
+	if st := ex.stale[k]; len(st) > 0 {
+		return st[len(st)-1]
+	}
+	return 12345
+}
+
+// ackedSnapshot is the acknowledged single-writer state (C07: taken right
+// before the faulted membership change starts).
+func (ex *Exec) ackedSnapshot() map[string]string {
+	ex.mu.Lock()
+	defer ex.mu.Unlock()
+	m := map[string]string{}
+	for _, r := range ex.hist {
+		if r.Class != "ok" {
+			continue
+		}
+		switch r.Kind {
+		case "put":
+			m["v:"+r.Key] = r.Arg
+		case "del":
+			delete(m, "v:"+r.Key)
+		case "pappend":
+			m["c:"+r.Key+"/"+r.Arg] = "1"
+		case "premove":
+			delete(m, "c:"+r.Key+"/"+r.Arg)
+		}
+	}
+	return m
+}
+
+// observeError is the C14 monitor: for every error a node returns to a remote
+// caller, the caller-side mapping (the real chord.ErrorMapper applied to the
+// twirp error the client reconstructs from the wire) must recognise a chord
+// error as the same error and must classify it as retryable exactly when the
+// origin did (the origin's classification is what rpc.WrapError put on the
+// wire: failed_precondition for retryable origins).
+func (ex *Exec) observeError(call simnet.Call) {
+	if call.Status == 200 {
+		return
+	}
+	var w struct {
+		Code string            `json:"code"`
+		Msg  string            `json:"msg"`
+		Meta map[string]string `json:"meta"`
+	}
+	if json.Unmarshal(call.Body, &w) != nil || w.Code == "" {
+		return
+	}
+	simrt.Probe("rpc-error-observed")
+	originRetryable := w.Code == string(twirp.FailedPrecondition)
+	originChord := w.Meta["cause"] == "*chord.Error"
+	var werr error = twirp.NewError(twirp.ErrorCode(w.Code), w.Msg)
+	mapped := spec.ErrorMapper(werr)
+	callerRetryable := spec.ErrorIsRetryable(mapped)
+	if originChord {
+		var ce *spec.Error
+		if !errors.As(mapped, &ce) || ce.Error() != w.Msg {
+			ex.res.Violate("C14", "identity-lost", "%s from %s to %s returned chord error %q but the caller maps it to %T %q", call.Method, call.To, call.From, w.Msg, mapped, mapped.Error())
+		}
+	}
+	if originRetryable != callerRetryable {
+		ex.res.Violate("C14", "retryability-changed/"+w.Meta["cause"], "%s from %s to %s: origin error %q (%s) was retryable=%v at the origin but retryable=%v at the caller", call.Method, call.To, call.From, w.Msg, w.Meta["cause"], originRetryable, callerRetryable)
+	}
 }
